@@ -51,7 +51,7 @@ Cat(ss) == IF ss = <<>> THEN <<>> ELSE Head(ss) \o Cat(Tail(ss))
 \* ---------------------------------------------------------------- description access
 Has(n, k) == \E i \in 1..Len(n.v) : n.v[i][1] = k
 Get(n, k) == n.v[CHOOSE i \in 1..Len(n.v) : n.v[i][1] = k][2]
-Int(n) == IF n.neg THEN HeadL(1, n.l) ELSE HeadL(0, n.l)
+CInt(n) == IF n.neg THEN HeadL(1, n.l) ELSE HeadL(0, n.l)
 Small(n) == n.l[3] * 65536 + n.l[4]                 \* value of a small non-negative int node
 CodeInt(c) == IF c >= 0 THEN HeadN(0, c) ELSE HeadN(1, -1 - c)
 Code(space, n) == CodeInt(CodeOf(space, n.s))
@@ -109,7 +109,7 @@ W(ty, n, env) ==
          Map(Len(n.v)) \o Cat([i \in 1..Len(n.v) |->
             LET k == n.v[i][1]  v == n.v[i][2] IN
             Code("manifest", [s |-> k]) \o
-            (CASE k \in {"suit-manifest-version", "suit-manifest-sequence-number"} -> Int(v)
+            (CASE k \in {"suit-manifest-version", "suit-manifest-sequence-number"} -> CInt(v)
                [] k = "suit-common" -> Bstr(W("Common", v, env))
                [] k = "suit-reference-uri" -> Tstr(v.u)
                [] k = "suit-manifest-component-id" -> W("ComponentId", v, env)
@@ -125,15 +125,15 @@ W(ty, n, env) ==
                [] k = "suit-shared-sequence" -> Bstr(W("CmdSeq", v, env))
                [] k = "suit-dependencies" ->
                     Map(Len(v.v)) \o Cat([j \in 1..Len(v.v) |->
-                       Int(v.v[j][2].ki) \o
+                       CInt(v.v[j][2].ki) \o
                        Map(Len(v.v[j][2].v)) \o Cat([m \in 1..Len(v.v[j][2].v) |->
                           Code("depmeta", [s |-> v.v[j][2].v[m][1]]) \o W("ComponentId", v.v[j][2].v[m][2], env)])]))])
     [] ty = "ComponentId" -> Arr(Len(n.v)) \o Cat([i \in 1..Len(n.v) |-> W("CidPart", n.v[i], env)])
     [] ty = "CidPart" ->
          (CASE n.t = "m" -> Bstr(Get(n, "raw").x)                       \* {raw: hex} (UUID sugar is resolved to raw)
-            [] n.t = "s" -> (IF Len(n.u) = 1 /\ n.ascii1 THEN Bstr(n.u) ELSE Bstr(Tstr(n.u)))
-            [] n.t = "i" -> Bstr(Int(n)))
-    [] ty = "IntList" -> Arr(Len(n.v)) \o Cat([i \in 1..Len(n.v) |-> Int(n.v[i])])
+            [] n.t = "s" -> (IF n.one THEN Bstr(n.u) ELSE Bstr(Tstr(n.u)))
+            [] n.t = "i" -> Bstr(CInt(n)))
+    [] ty = "IntList" -> Arr(Len(n.v)) \o Cat([i \in 1..Len(n.v) |-> CInt(n.v[i])])
     [] ty = "CmdSeq" ->
          LET cnt == LET f[i \in 0..Len(n.v)] == IF i = 0 THEN 0 ELSE f[i - 1] + Len(n.v[i].v) IN f[Len(n.v)] IN
          Arr(2 * cnt) \o Cat([i \in 1..Len(n.v) |-> Cat([j \in 1..Len(n.v[i].v) |-> W("Command", n.v[i].v[j], env)])])
@@ -142,7 +142,7 @@ W(ty, n, env) ==
          Code("command", [s |-> k]) \o
          (CASE k \in Conditions \cup PolicyDirectives -> HeadN(0, PolicySum(v))
             [] k = "suit-directive-set-component-index" ->
-                 (CASE v.t = "i" -> Int(v) [] v.t = "b" -> Bool(v.v) [] v.t = "l" -> W("IntList", v, env))
+                 (CASE v.t = "i" -> CInt(v) [] v.t = "b" -> Bool(v.v) [] v.t = "l" -> W("IntList", v, env))
             [] k \in {"suit-directive-set-parameters", "suit-directive-override-parameters"} -> W("Params", v, env)
             [] k = "suit-directive-try-each" -> Arr(Len(v.v)) \o Cat([i \in 1..Len(v.v) |-> Bstr(W("CmdSeq", v.v[i], env))])
             [] k = "suit-directive-run-sequence" -> Bstr(W("CmdSeq", v, env)))
@@ -153,14 +153,14 @@ W(ty, n, env) ==
             (CASE k \in {"suit-parameter-vendor-identifier", "suit-parameter-class-identifier", "suit-parameter-device-identifier"}
                     -> Bstr(Get(v, "raw").x)
                [] k = "suit-parameter-image-digest" -> Bstr(W("Digest", v, env))
-               [] k \in {"suit-parameter-component-slot", "suit-parameter-source-component"} -> Int(v)
+               [] k \in {"suit-parameter-component-slot", "suit-parameter-source-component"} -> CInt(v)
                [] k \in {"suit-parameter-strict-order", "suit-parameter-soft-failure"} -> Bool(v.v)
-               [] k = "suit-parameter-image-size" -> Int(Get(v, "raw"))
-               [] k = "suit-parameter-content" -> (IF v.t = "i" THEN Bstr(Int(v)) ELSE Bstr(v.x))
+               [] k = "suit-parameter-image-size" -> CInt(Get(v, "raw"))
+               [] k = "suit-parameter-content" -> (IF v.t = "i" THEN Bstr(CInt(v)) ELSE Bstr(v.x))
                [] k = "suit-parameter-uri" -> Tstr(v.u)
                [] k = "suit-parameter-invoke-args" ->
                     Bstr(Map(Len(v.v)) \o Cat([j \in 1..Len(v.v) |-> Code("invokeargs", [s |-> v.v[j][1]]) \o
-                         (IF v.v[j][2].t = "b" THEN Bool(v.v[j][2].v) ELSE Int(v.v[j][2]))]))
+                         (IF v.v[j][2].t = "b" THEN Bool(v.v[j][2].v) ELSE CInt(v.v[j][2]))]))
                [] k = "suit-parameter-version" ->
                     Bstr(Arr(2) \o Code("comparator", [s |-> v.v[1][1]]) \o W("IntList", v.v[1][2], env))
                [] k = "suit-parameter-encryption-info" ->
@@ -171,7 +171,7 @@ W(ty, n, env) ==
             LET k == n.v[i][1]  v == n.v[i][2] IN
             Code("header", [s |-> k]) \o
             (CASE k = "suit-cose-algorithm-id" -> Code("cosealg", v)
-               [] k = "suit-cose-key-id" -> (IF v.t = "i" THEN Bstr(Int(v)) ELSE Bstr(v.x))
+               [] k = "suit-cose-key-id" -> (IF v.t = "i" THEN Bstr(CInt(v)) ELSE Bstr(v.x))
                [] k = "suit-cose-iv" -> Bstr(v.x))])
     [] ty = "CoseSign1" ->
          Arr(4) \o Bstr(W("HeaderMap", Get(n, "protected"), env)) \o W("HeaderMap", Get(n, "unprotected"), env)
@@ -180,7 +180,7 @@ W(ty, n, env) ==
     [] ty = "Cwt" ->
          Map(Len(n.v)) \o Cat([i \in 1..Len(n.v) |->
             LET k == n.v[i][1]  v == n.v[i][2] IN
-            Code("cwt", [s |-> k]) \o (CASE v.t = "i" -> Int(v) [] k = "CW ID" -> Bstr(v.x) [] OTHER -> Tstr(v.u))])
+            Code("cwt", [s |-> k]) \o (CASE v.t = "i" -> CInt(v) [] k = "CW ID" -> Bstr(v.x) [] OTHER -> Tstr(v.u))])
     [] ty = "CoseEncrypt" ->
          Arr(4) \o Bstr(W("HeaderMap", Get(n, "protected"), env)) \o W("HeaderMap", Get(n, "unprotected"), env)
             \o (IF Get(n, "ciphertext").t = "n" THEN Null ELSE Bstr(Get(n, "ciphertext").x))
